@@ -40,7 +40,7 @@ RECIPE = 'import numpy as np\n\ndef recipe(field_indexes, box_array):\n    """tw
 def cases(draw, tier="quick"):
     entry = ENTRIES[draw(st.integers(0, 2 ** 16)) % len(ENTRIES)]
     nd = 2 if entry == "mand2d" else 3
-    spec = draw(plotgen.plot_specs(ndims=nd, max_levels=2, max_cells=500, fields=["temp", "density", "Y(H2)", "volFrac"],
+    spec = draw(plotgen.plot_specs(thin=True, ndims=nd, max_levels=2, max_cells=500, fields=["temp", "density", "Y(H2)", "volFrac"],
                                    payload_kinds=("random",), layouts=("scatter", "nonmono", "scatter", "nonmono", "single"), max_nb0=3))
     m = spec["mesh"]
     m["nb0"] = [max(n, 2) for n in m["nb0"]]        # several boxes, so that pool calls have several tasks
